@@ -37,6 +37,11 @@ def gen_cases(ctx):
         for _ in range(3000):
             n = rng.randrange(0, 300)
             cases.append(([rng.randrange(256) for _ in range(n)], rng.randrange(2 ** 32), "randlong"))
+    # long inputs (the length enters the final mix: 2^8, 2^16 and 2^17 boundaries); content is a fixed function of the position, so the
+    # length alone replays the case
+    for n in [255, 256, 257, 1023, 4099, 65535, 65536, 65537, 70001, 131075] + ([262144, 300001] if ctx.thorough else []):
+        for s in (0, 1, 2 ** 32 - 1):
+            cases.append(([(i * 131 + 7) % 256 for i in range(n)], s, "long"))
     return cases
 
 
@@ -86,7 +91,9 @@ def main(argv):
         ctx.count("len%4=" + str(len(d) % 4))
         ctx.case((tuple(d), s), nontrivial=len(d) >= 1,
                  sample={"data": d, "seed": s, "impl": got} if len(d) in (5, 7) else None)
-        case = {"data": d, "seed": s, "impl": got}
+        if len(d) > 80:
+            ctx.count("long-inputs")
+        case = {"data": d if len(d) <= 80 else {"length": len(d), "byte_at_i": "(i*131+7) % 256"}, "seed": s, "impl": got}
         # monitor (model-independent)
         if not (isinstance(got, int) and 0 <= got < 2 ** 32 and type(got) is int):
             ctx.violation("result is not a 32-bit unsigned integer", case)
